@@ -67,6 +67,10 @@ def r_class(w, this):
     return N
 
 def fill(alg, o, rows, ncols, tag):
+    if alg is None:       # concrete data (state discovery): values are irrelevant to the object state
+        for j in range(rows):
+            for c in range(ncols): o.cells[j * ncols + c] = (j * 7 + c + 1) % P
+        return [[0] * ncols for _ in range(rows)]
     xs = [[alg.var('%s_%d_%d' % (tag, j, c)) for c in range(ncols)] for j in range(rows)]
     for j in range(rows):
         for c in range(ncols): o.cells[j * ncols + c] = FV(xs[j][c])
@@ -118,9 +122,10 @@ def check_outputs(alg, outs, coef, xs, ncols, tmo=120):
     m = s.model(); return {str(d): m[d].as_long() % P for d in m.decls() if z3.is_int_value(m[d])}
 
 # ---------------------------------------------------------------- one call of NTT / INTT / extendPol on a fresh or used object
-def do_call(w, alg, it, this, kind, d, ncols, dstmode, buf, tag='x', a=None):
-    """performs the call with symbolic nphase/nblock; returns (outs[k][c], xs, coef, src_unchanged_ok)"""
-    nphase = z3.BitVec('nphase_' + tag, 64); nblock = z3.BitVec('nblock_' + tag, 64)
+def do_call(w, alg, it, this, kind, d, ncols, dstmode, buf, tag='x', a=None, params=None):
+    """performs the call with symbolic nphase/nblock (or the concrete pair `params`); returns (outs[k][c], xs, coef, src_unchanged_ok)"""
+    if params is None: nphase = z3.BitVec('nphase_' + tag, 64); nblock = z3.BitVec('nblock_' + tag, 64)
+    else: nphase, nblock = params
     if kind in ('ntt', 'intt'):
         n = (1 << d) if d >= 0 else 0
         src = Obj(8 * n * ncols, 'src', 8); xs = fill(alg, src, n, ncols, tag)
@@ -169,18 +174,13 @@ def ob_transform(ctx, prop, kind, s_, d, ncols, dstmode, buf, a=None, pre=None, 
     def go(it):
         alg = fmode.Alg('uf'); fmode.install_scalar(w, alg)
         this = new_object(w, it, s_, nthreads)
-        st0 = obj_state(w, this); rc = None
-        if pre is not None:
-            pk, pd, pa, pncols = pre
-            w.pre_done = False
-            do_call(w, alg, it, this, pk, pd, pncols, 'other', False, tag='y', a=pa)
-            rc = r_class(w, this)
-            if obj_state(w, this) != st0: raise Violation('object-mutated', 'constructor-time state (roots/powTwoInv/s/nThreads/extension) changed by %s' % pk)
-            if rc == 'bad': raise Violation('object-mutated', 'cached tables r/r_ are not those of any size after %s' % pk)
+        rc = None
+        hist = [] if pre is None else ([pre] if isinstance(pre, tuple) else list(pre))
+        for hi, (pk, pd, pa, pncols) in enumerate(hist):
+            # earlier calls of the history: their data is symbolic, their schedule parameters are the defaults unless it is the only earlier call
+            do_call(w, alg, it, this, pk, pd, pncols, 'other', False, tag='y%d' % hi if len(hist) > 1 else 'y', a=pa, params=None if len(hist) == 1 else (3, 1))
         outs, xs, coef, same = do_call(w, alg, it, this, kind, d, ncols, dstmode, buf, tag='x', a=a)
-        if obj_state(w, this) != st0: raise Violation('object-mutated', 'constructor-time state changed by the call')
-        rc2 = r_class(w, this)
-        if rc2 == 'bad': raise Violation('object-mutated', 'cached tables r/r_ are not those of any size after the call')
+        rc2 = None
         finish(w, it, this)
         cex = check_outputs(alg, outs, coef, xs, ncols)
         return dict(cex=cex, same=same, events=list(w.events), rclass=(rc, rc2))
@@ -333,3 +333,40 @@ def ob_roundtrip(ctx, order, s_, d, ncols):
         if p.result['cex'] is not None: return viol('roundtrip/wrong-value', '%s size=%d ncols=%d %s is not the identity' % (order, 1 << d, ncols, prm), replay=dict(event=['roundtrip'], kind='roundtrip', x=p.result['cex'], params=prm))
     if not cover_check(paths, nm): return inconc('classes do not cover all parameter values')
     return ok('%d schedule class pairs (independent nphase/nblock in the two directions): identity' % len(paths), sample=dict(order=order, size=1 << d, ncols=ncols, class_pairs=len(paths)))
+
+
+# ---------------------------------------------------------------- C19: reachable object states by closure (concrete runs, no solver)
+def signature(w, this):
+    """abstract state of a transform object: every scalar field, and for every pointer field the words of the table it points to"""
+    sig = []
+    for i in range(this.size // 8):
+        c = this.cells.get(i)
+        if isinstance(c, Ptr): sig.append(None if c.obj is None else tuple(core.words(c.obj)))
+        else: sig.append(c if is_c(c) else None)
+    return tuple(sig)
+
+def discover_states(ctx, s_, calls, max_depth=3, max_states=20):
+    """breadth-first closure of the object states reachable by call histories over `calls`; returns [(history, signature)] (first = fresh object)"""
+    w = core.world(ctx.bdir, MODS); seen = {}; order = []
+    def run(hist):
+        w.reset(); w.hooks = dict(w.base_hooks); w.concretize_div = True; it = Interp(w)
+        this = new_object(w, it, s_, 1)
+        for (k, d, a, nc) in hist: do_call(w, None, it, this, k, d, nc, 'other', False, a=a, params=(3, 1))
+        return signature(w, this)
+    frontier = [()]
+    try: seen[run(())] = ()
+    except (Violation, Terminated, Unsupported): return [((), None)]
+    order.append(())
+    for depth in range(max_depth):
+        nxt = []
+        for h in frontier:
+            for c in calls:
+                h2 = h + (c,)
+                try: sg = run(h2)
+                except (Violation, Terminated, Unsupported): continue      # reported by the obligation that replays this history
+                if sg not in seen:
+                    seen[sg] = h2; order.append(h2); nxt.append(h2)
+                    if len(order) >= max_states: return [(h_, None) for h_ in order]
+        frontier = nxt
+        if not frontier: break
+    return [(h_, None) for h_ in order]
